@@ -521,4 +521,106 @@ Section Shard.
       + apply mlen_le_acc.
       + exists ts. repeat split; assumption.
   Qed.
+
+  (** ** from the shard list to the checker *)
+  Definition outL (ts : list triple) : list Z := map (fun t => Z.of_nat (tl t)) ts.
+  Definition outB (s : nat) (ts : list triple) : list Z := Z.of_nat s :: map (fun t => Z.of_nat (te t)) ts.
+
+  Lemma bounds_okb_cons2 b b' t lo hi ms :
+    bounds_okb (b :: b' :: t) lo hi ms = (b =? lo) && (b <? b') && (b' - b <=? ms) && bounds_okb (b' :: t) b' hi ms.
+  Proof. reflexivity. Qed.
+
+  Lemma bounds_chain : forall ts s e, chain s e ts ->
+    bounds_okb (outB s ts) (Z.of_nat s) (Z.of_nat e) maxSize = true.
+  Proof.
+    induction ts as [|t r IH]; intros s e H; cbn [chain] in H.
+    - subst. unfold outB. cbn [map bounds_okb]. now rewrite Z.eqb_refl.
+    - destruct H as (A & B & C & D & E). unfold outB. cbn [map].
+      rewrite bounds_okb_cons2, Z.eqb_refl.
+      rewrite (proj2 (Z.ltb_lt _ _)) by lia. rewrite (proj2 (Z.leb_le _ _)) by lia.
+      cbn [andb]. exact (IH (te t) e E).
+  Qed.
+
+  Lemma lcps_chain : forall ts s e, chain s e ts -> (e <= length keys)%nat ->
+    forallb (fun p => fst p =? zlen (lcp_all (snd p))) (combine (outL ts) (shards keys (outB s ts))) = true.
+  Proof.
+    induction ts as [|t r IH]; intros s e H He; [reflexivity|].
+    cbn [chain] in H. destruct H as (A & B & C & D & E).
+    unfold outL, outB, shards. cbn [map]. rewrite c17_adj_pairs_cons2. cbn [map combine forallb fst snd].
+    apply andb_true_iff. split.
+    - apply Z.eqb_eq. unfold zlen. pose proof (chain_le _ _ _ E).
+      rewrite lcp_all_sub by lia. now rewrite D.
+    - exact (IH (te t) e E He).
+  Qed.
+
+  Lemma prefs_chain : forall ts s e, chain s e ts ->
+    shard_prefixes keys (outL ts) (outB s ts) = map pref ts.
+  Proof.
+    induction ts as [|t r IH]; intros s e H; [reflexivity|].
+    cbn [chain] in H. destruct H as (A & B & C & D & E).
+    unfold shard_prefixes, outL, outB in *. cbn [map combine fst snd]. f_equal.
+    - unfold pref. now rewrite A, !Nat2Z.id.
+    - exact (IH (te t) e E).
+  Qed.
+
+  Lemma ShardByPrefix_ok : keys <> [] ->
+    exists L B, ShardByPrefix keys maxSize = Some (L, B) /\ shard_ok keys maxSize L B = true.
+  Proof.
+    intros Hne. unfold ShardByPrefix. rewrite (FirstDiffBits_exact keys Hne Hok). fold fd.
+    assert (Hlen : (0 < length keys)%nat) by (destruct keys; [congruence|cbn [length]; lia]).
+    replace (zlen fd + 1) with (Z.of_nat (length keys)) by (unfold zlen; rewrite fd_length; lia).
+    destruct (dfs_ok (S (length keys)) 0 (length keys) Hlen (le_n _) ltac:(lia) ([], [0]))
+      as (ts & Hd & Hc & _ & Ha).
+    change (Z.of_nat 0) with 0 in Hd. rewrite Hd.
+    exists (outL ts), (outB 0 ts). split; [reflexivity|].
+    unfold shard_ok.
+    apply andb_true_iff; split; [apply andb_true_iff; split; [apply andb_true_iff; split|]|].
+    - exact (bounds_chain ts 0%nat (length keys) Hc).
+    - apply Z.eqb_eq. unfold zlen, outL, outB. cbn [length]. rewrite !map_length. lia.
+    - exact (lcps_chain ts 0%nat (length keys) Hc (le_n _)).
+    - apply strict_ascb_asc. rewrite (prefs_chain ts 0%nat (length keys) Hc). exact Ha.
+  Qed.
 End Shard.
+
+(** * the property *)
+Theorem ShardByPrefix_shard_ok keys maxSize :
+  keys <> [] -> keys_ok keys -> strict_asc keys -> 1 <= maxSize ->
+  exists L B, ShardByPrefix keys maxSize = Some (L, B) /\ shard_ok keys maxSize L B = true.
+Proof. intros Hne Hok Hasc Hms. exact (ShardByPrefix_ok keys Hok maxSize Hasc Hms Hne). Qed.
+
+Theorem ShardByPrefix_correct keys maxSize :
+  keys <> [] -> keys_ok keys -> strict_asc keys -> 1 <= maxSize ->
+  exists L B, ShardByPrefix keys maxSize = Some (L, B) /\ shard_spec keys maxSize L B.
+Proof.
+  intros Hne Hok Hasc Hms.
+  destruct (ShardByPrefix_shard_ok keys maxSize Hne Hok Hasc Hms) as (L & B & H1 & H2).
+  exists L, B. split; [exact H1|]. now apply shard_ok_sound.
+Qed.
+
+(** ** "strictly ascending, hence pairwise distinct" *)
+Definition shard_prefix (keys : list (list Z)) (L B : list Z) (j : nat) : list Z :=
+  firstn (Z.to_nat (nth j L 0)) (nth (Z.to_nat (nth j B 0)) keys []).
+
+Lemma shard_spec_prefixes_lt keys maxSize L B : shard_spec keys maxSize L B ->
+  forall n i, (S (i + n) < length L)%nat ->
+  bytes_cmp (shard_prefix keys L B i) (shard_prefix keys L B (S (i + n))) = Lt.
+Proof.
+  intros (_ & _ & _ & _ & Hasc). induction n as [|n IH]; intros i Hi.
+  - rewrite Nat.add_0_r in *. apply Hasc. exact Hi.
+  - replace (i + S n)%nat with (S (i + n)) in * by lia.
+    apply (lex_lt_trans Z.compare Z.compare_eq_iff Z_cmp_lt_trans _ (shard_prefix keys L B (S (i + n)))).
+    + apply IH. lia.
+    + apply Hasc. exact Hi.
+Qed.
+
+Theorem shard_spec_prefixes_distinct keys maxSize L B : shard_spec keys maxSize L B ->
+  forall i j, (i < j < length L)%nat ->
+  bytes_cmp (shard_prefix keys L B i) (shard_prefix keys L B j) = Lt /\
+  shard_prefix keys L B i <> shard_prefix keys L B j.
+Proof.
+  intros H i j Hij.
+  pose proof (shard_spec_prefixes_lt keys maxSize L B H (j - i - 1) i) as Hlt.
+  replace (S (i + (j - i - 1))) with j in Hlt by lia. specialize (Hlt ltac:(lia)).
+  split; [exact Hlt|].
+  exact (lex_lt_neq Z.compare Z.compare_eq_iff _ _ Hlt).
+Qed.
